@@ -722,8 +722,8 @@ Section FuncVariantSem.
     apply (list_eqb_eq _ simple_eqb_eq) in Hfe. apply (list_eqb_eq _ param_eqb_eq) in Hpre. subst fr.
     destruct (plain_group_shape_inv _ _ Hpy) as (g1 & a & b & c & d & e & pre1 & pv & Hfe1 & Hby & Hg1 & Hpsy & Hpre1 & Hpv & Hpl1 & Hfo1).
     destruct (func_group_shape_inv _ _ Hpr) as (g2 & a' & b' & c' & d' & e' & pre2 & pf & Hfe2 & Hbr & Hg2 & Hpsr & Hpre2 & Hpf & Hpl2 & Hfo2).
-    assert (pre1 = pre2) by congruence. subst pre2. rewrite Hfe1 in Hfe2. injection Hfe2 as <- <- <- <- <-.
-    rename pre1 into pre.
+    subst pre1 pre2. rewrite Hpre in *. set (pre := removelast (r_params r)) in *. clearbody pre.
+    rewrite Hfe1 in Hfe2. injection Hfe2 as <- <- <- <- <-.
     exists pre, pf, pv, fy. repeat (split; [assumption|]).
     intros fuel prevs flds Hlen Hflds.
     assert (Hlen' : length prevs = length (names pre)) by (unfold names; rewrite map_length; exact Hlen).
@@ -761,9 +761,7 @@ Section FuncVariantSem.
       assert (Hls : lookup (r_self r) ((g2, VGroup gp) :: en) = Some (VStmt sp)).
       { unfold en. rewrite (lookup_skip _ _ _ _ (str_neq_sym _ _ Hg2s)). apply lookup_head. }
       rewrite Hlf. cbn [eval_args eval]. rewrite lookup_head. rewrite Hls.
-      cbn [eval_args eval]. rewrite lookup_head.
-      destruct (append_stmt _ sp [VGroup gp]) as [h3|]; [|reflexivity].
-      cbn [exec eval]. rewrite Hls. reflexivity.
+      destruct (append_stmt _ sp [VGroup gp]) as [h3|]; reflexivity.
     - (* the plain variant *)
       intros its sp h. cbn [call]. rewrite Hfy, Hby, Hpsy.
       rewrite (bind_app _ _ Hpl1 _ _ Hlen). cbn [bind_params]. rewrite Hpv.
@@ -788,6 +786,256 @@ Section FuncVariantSem.
       { unfold en. rewrite (lookup_skip _ _ _ _ (str_neq_sym _ _ Hg1s)). apply lookup_head. }
       rewrite Hls. cbn [eval_args eval]. rewrite lookup_head.
       destruct (append_stmt _ sp [VGroup gp]) as [h3|]; [|reflexivity].
-      cbn [exec eval]. rewrite Hls. reflexivity.
+      cbn [exec eval]. try rewrite Hls. reflexivity.
   Qed.
 End FuncVariantSem.
+
+(* ------------------------------------------------------------------ LitFunc and friends *)
+Lemma token_shape_inv r ty c : token_shape r = Some (ty, c) ->
+  exists t, r_body r = Body [SDefine t (EToken ty c); SAppendSelf (r_self r) [EVar t]; SReturn (EVar (r_self r))] /\
+            mem t (r_self r :: names (r_params r)) = false.
+Proof.
+  unfold token_shape. intros H. destruct (r_body r) as [l| |] eqn:Hb; try discriminate.
+  dvars H.
+  match type of H with (if ?c then _ else _) = _ => destruct c eqn:Hc; [|discriminate] end.
+  injection H as <- <-. split_andb Hc.
+  repeat match goal with Hx : str_eqb _ _ = true |- _ => apply str_eqb_eq in Hx end.
+  match goal with Hx : negb _ = true |- _ => apply negb_true_iff in Hx end.
+  subst. eexists. split; [reflexivity | assumption].
+Qed.
+
+Section TokenVariant.
+  Variable cb_run : N -> list value -> store -> store * value.
+
+  (* XFunc(f) appends the token X(v) appends, with v := f(), f called once before the append *)
+  Lemma token_func_variant_sem tbl XF Y r yr :
+    rows_wf tbl = true -> find_row tbl s_Statement XF = Some r -> is_construct r = true -> has_cb r = true ->
+    strip_suffix s_Func XF = Some Y -> find_row tbl s_Statement Y = Some yr ->
+    builds_group yr || builds_group r = false -> builds_token yr || builds_token r = true ->
+    exists c, forall fuel,
+      (forall id sp h,
+         call cb_run (Datatypes.S fuel) tbl s_Statement XF (Some (VStmt sp)) [VCb id] h =
+         match append_stmt (fst (cb_run id [] h)) sp [VTok (VConst c) (snd (cb_run id [] h))] with
+         | Some h3 => Some (VStmt sp, h3, [id])
+         | None => None
+         end) /\
+      (forall v sp h,
+         call cb_run (Datatypes.S fuel) tbl s_Statement Y (Some (VStmt sp)) [v] h =
+         match append_stmt h sp [VTok (VConst c) v] with
+         | Some h3 => Some (VStmt sp, h3, [])
+         | None => None
+         end).
+  Proof.
+    intros Hwf Hf Hc Hcb Hstrip Hfy Hbg Hbt.
+    destruct (find_row_some _ _ _ _ Hf) as [Hin [_ Hname]].
+    destruct (find_row_some _ _ _ _ Hfy) as [Hiny _].
+    destruct (construct_row_ok _ _ Hwf Hin Hc) as [Hok Hloc].
+    pose proof (rows_wf_row _ _ Hwf Hiny) as Hry. unfold row_ok in Hry. split_andb Hry.
+    assert (Hlocy : locals_ok yr = true) by assumption.
+    unfold construct_ok in Hok. split_andb Hok.
+    match goal with Hx : func_variant_ok tbl r = true |- _ => rename Hx into Hfv end.
+    unfold func_variant_ok in Hfv. rewrite Hname, Hstrip, Hcb, Hfy, Hbg, Hbt in Hfv. simpl negb in Hfv. cbv iota in Hfv.
+    destruct (token_shape yr) as [[ty1 c1]|] eqn:Hty; [|discriminate].
+    destruct ty1; try discriminate. destruct c1; try discriminate.
+    destruct (token_shape r) as [[ty2 c2]|] eqn:Htr; [|discriminate].
+    destruct ty2; try discriminate. destruct c2; try discriminate. destruct args; try discriminate.
+    destruct (r_params yr) as [|pv [|]] eqn:Hpy; try discriminate.
+    destruct (r_params r) as [|pf [|]] eqn:Hpr; try discriminate.
+    split_andb Hfv.
+    repeat match goal with Hx : str_eqb _ _ = true |- _ => apply str_eqb_eq in Hx end. subst.
+    destruct (token_shape_inv _ _ _ Hty) as [t1 [Hby Ht1]].
+    destruct (token_shape_inv _ _ _ Htr) as [t2 [Hbr Ht2]].
+    rewrite Hpy in Ht1. rewrite Hpr in Ht2.
+    unfold locals_ok in Hloc, Hlocy. rewrite Hpr in Hloc. rewrite Hpy in Hlocy. simpl in Hloc, Hlocy, Ht1, Ht2.
+    unfold mem in *. simpl in *.
+    repeat match goal with Hx : (_ || _) = false |- _ => apply orb_false_iff in Hx; destruct Hx end.
+    repeat match goal with Hx : (_ && _) = true |- _ => apply andb_true_iff in Hx; destruct Hx end.
+    repeat match goal with Hx : negb _ = true |- _ => apply negb_true_iff in Hx end.
+    repeat match goal with Hx : (_ || _) = false |- _ => apply orb_false_iff in Hx; destruct Hx end.
+    exists c0. intros fuel. split.
+    - intros id sp h. cbn [call]. rewrite Hf, Hbr, Hpr. cbn [bind_params].
+      match goal with Hx : is_func pf = true |- _ => rewrite (is_func_not_variadic _ Hx) end.
+      cbn [exec eval eval_args].
+      rewrite (lookup_skip (p_name pf) (r_self r)) by (apply str_neq_sym; assumption).
+      rewrite lookup_head.
+      rewrite (lookup_skip (r_self r) t2) by (apply str_neq_sym; assumption).
+      rewrite lookup_head. rewrite lookup_head.
+      destruct (append_stmt _ sp _) as [h3|]; reflexivity.
+    - intros v sp h. cbn [call]. rewrite Hfy, Hby, Hpy. cbn [bind_params].
+      match goal with Hx : is_plain pv = true |- _ => rewrite (is_plain_not_variadic _ Hx) end.
+      cbn [exec eval eval_args].
+      rewrite (lookup_skip (p_name pv) (r_self yr)) by (apply str_neq_sym; assumption).
+      rewrite lookup_head.
+      rewrite (lookup_skip (r_self yr) t1) by (apply str_neq_sym; assumption).
+      rewrite lookup_head. rewrite lookup_head.
+      destruct (append_stmt _ sp _) as [h3|]; reflexivity.
+  Qed.
+End TokenVariant.
+
+(* ------------------------------------------------------------------ same tree *)
+Lemma snap_append_group : forall n h g r h2 v,
+  append_group h g r = Some h2 -> avoids n h g v = true -> snap n h2 v = snap n h v.
+Proof.
+  induction n as [|n IH]; intros h g r h2 v Ha Hv; [reflexivity|].
+  destruct (append_group_spec _ _ _ _ Ha) as [Hs [_ [_ Ho]]].
+  destruct v; try reflexivity; cbn [snap avoids] in *.
+  - rewrite Hs. destruct (nth_error (st_stmts h) p) as [its|]; [|reflexivity].
+    f_equal. apply map_ext_in. intros a Hin. rewrite forallb_forall in Hv. apply (IH _ _ _ _ _ Ha). apply Hv. exact Hin.
+  - apply andb_true_iff in Hv. destruct Hv as [Hne Hv]. apply negb_true_iff in Hne. apply Nat.eqb_neq in Hne.
+    rewrite (Ho _ Hne). destruct (nth_error (st_groups h) p) as [gr|]; [|reflexivity].
+    f_equal. apply map_ext_in. intros a Hin. rewrite forallb_forall in Hv. apply (IH _ _ _ _ _ Ha). apply Hv. exact Hin.
+Qed.
+
+(* ------------------------------------------------------------------ api_wf, unpacked *)
+Lemma api_wf_parts tbl ff gs : api_wf tbl ff gs = true -> rows_wf tbl = true /\ ff = [] /\ gs = [].
+Proof.
+  unfold api_wf. intros H. split_andb H. split; [exact H|].
+  destruct ff; [|discriminate]. destruct gs; [|discriminate]. auto.
+Qed.
+
+Lemma api_wf_named tbl ff gs : api_wf tbl ff gs = true ->
+  forall recv name, In (recv, name) named_callback_apis ->
+  exists r, find_row tbl recv name = Some r /\ has_cb r = true.
+Proof.
+  unfold api_wf. intros H recv name Hin. split_andb H.
+  match goal with Hx : forallb _ named_callback_apis = true |- _ => rewrite forallb_forall in Hx; specialize (Hx _ Hin); simpl in Hx end.
+  destruct (find_row tbl recv name) as [r|]; [|discriminate]. exists r. auto.
+Qed.
+
+(* Render(w) = RenderWithFile(w, NewFile("")) in the source, for *Statement and *Group *)
+Lemma api_wf_render tbl ff gs : api_wf tbl ff gs = true ->
+  forall recv, recv = s_Statement \/ recv = s_Group ->
+  exists r w, find_row tbl recv (S "Render") = Some r /\ r_params r = [w] /\
+    r_body r = Body [SReturn (ECallMeth (EVar (r_self r)) (S "RenderWithFile") [EVar (p_name w); ECallFn (S "NewFile") [EStr []]])].
+Proof.
+  intros H recv Hrecv. pose proof H as H0. unfold api_wf in H. split_andb H.
+  assert (exists r, find_row tbl recv (S "Render") = Some r) as [r Hr].
+  { match goal with Hx : match find_row tbl s_Statement _ with _ => _ end = true |- _ => rename Hx into Hm end.
+    destruct (find_row tbl s_Statement (S "Render")) as [r1|] eqn:E1; [|discriminate].
+    destruct (find_row tbl s_Group (S "Render")) as [r2|] eqn:E2; [|discriminate].
+    destruct Hrecv; subst; eauto. }
+  destruct (find_row_some _ _ _ _ Hr) as [Hin [Hrc Hn]].
+  pose proof (rows_wf_row _ _ H Hin) as Hok. unfold row_ok in Hok. split_andb Hok.
+  match goal with Hx : (if str_eqb (r_name r) _ && _ then _ else _) = true |- _ => rename Hx into Hd end.
+  rewrite Hn, Hrc in Hd. rewrite str_eqb_refl in Hd.
+  assert (Hor : str_eqb recv s_Statement || str_eqb recv s_Group = true).
+  { destruct Hrecv; subst; [rewrite str_eqb_refl; reflexivity | rewrite str_eqb_refl; apply orb_true_r]. }
+  rewrite Hor in Hd. simpl in Hd. unfold render_delegates in Hd.
+  destruct (r_params r) as [|w [|]] eqn:Hp; try discriminate.
+  destruct (r_body r) as [l| |] eqn:Hb; try discriminate.
+  dvars Hd. split_andb Hd.
+  repeat match goal with Hx : str_eqb _ _ = true |- _ => apply str_eqb_eq in Hx end. subst.
+  exists r, w. auto.
+Qed.
+
+(* ------------------------------------------------------------------ entry points in the model *)
+Lemma entry_points_agree : forall fmt wfail c,
+  code_render fmt wfail c = snd (code_render_with_file fmt wfail c (new_file [])).
+Proof. reflexivity. Qed.
+
+(* ------------------------------------------------------------------ a construct returns its receiver *)
+Section ReturnsReceiver.
+  Variable cb_run : N -> list value -> store -> store * value.
+  Variable callf : callfn.
+
+  Lemma exec_returns_self s rv : forall l en h v h' lg,
+    exec cb_run callf en h l = Some (v, h', lg) ->
+    l <> [] -> returns_last l = true -> last l (SReturn ENil) = SReturn (EVar s) ->
+    defines_b s l = false -> lookup s en = Some rv -> v = rv.
+  Proof.
+    induction l as [|st l IH]; intros en h v h' lg H Hne Hrl Hlast Hdef Hlk; [congruence|].
+    destruct l as [|st2 l].
+    - simpl in Hlast. subst st. cbn [exec eval] in H. rewrite Hlk in H. injection H as <- _ _. reflexivity.
+    - assert (Hlast' : last (st2 :: l) (SReturn ENil) = SReturn (EVar s)) by exact Hlast.
+      assert (Hne' : st2 :: l <> []) by discriminate.
+      assert (Hd : defines_b s (st :: st2 :: l) =
+                   (match st with SDefine y _ => str_eqb s y | _ => false end) || defines_b s (st2 :: l)) by reflexivity.
+      rewrite Hd in Hdef. apply orb_false_iff in Hdef. destruct Hdef as [Hd1 Hd2].
+      assert (Hrl' : returns_last (st2 :: l) = true /\ match st with SReturn _ => False | _ => True end).
+      { cbn [returns_last] in Hrl. destruct st; try discriminate; split; try exact I; exact Hrl. }
+      destruct Hrl' as [Hrl' Hnr].
+      remember (st2 :: l) as rest eqn:Hrest. clear Hrest Hd Hlast Hrl.
+      destruct st; cbn [exec] in H.
+      + destruct (eval cb_run callf en h e) as [[[v1 h1] l1]|]; [|discriminate].
+        destruct (exec cb_run callf _ h1 rest) as [[[r h2] l2]|] eqn:E2; [|discriminate].
+        injection H as <- _ _. eapply IH; try eassumption. rewrite lookup_skip; assumption.
+      + destruct (lookup s0 en) as [[]|]; try discriminate.
+        destruct (eval_args _ en h args) as [[[vs h1] l1]|]; [|discriminate].
+        destruct (append_stmt h1 p vs) as [h2|]; [|discriminate].
+        destruct (exec cb_run callf en h2 rest) as [[[r h3] l2]|] eqn:E2; [|discriminate].
+        injection H as <- _ _. eapply IH; eassumption.
+      + destruct (lookup g en) as [[]|]; try discriminate.
+        destruct (eval cb_run callf en h e) as [[[v1 h1] l1]|]; [|discriminate].
+        destruct (append_group h1 p v1) as [h2|]; [|discriminate].
+        destruct (exec cb_run callf en h2 rest) as [[[r h3] l2]|] eqn:E2; [|discriminate].
+        injection H as <- _ _. eapply IH; eassumption.
+      + destruct (lookup f en) as [[]|]; try discriminate.
+        destruct (eval_args _ en h args) as [[[vs h1] l1]|]; [|discriminate].
+        destruct (exec cb_run callf en _ rest) as [[[r h3] l2]|] eqn:E2; [|discriminate].
+        injection H as <- _ _. eapply IH; eassumption.
+      + destruct Hnr.
+  Qed.
+End ReturnsReceiver.
+
+Section Summary.
+  Variable cb_run : N -> list value -> store -> store * value.
+
+  Lemma construct_returns_receiver tbl X m :
+    rows_wf tbl = true -> find_row tbl s_Statement X = Some m -> is_construct m = true ->
+    forall fuel rv args h v h' lg,
+      call cb_run fuel tbl s_Statement X (Some rv) args h = Some (v, h', lg) -> v = rv.
+  Proof.
+    intros Hwf Hf Hc fuel rv args h v h' lg H.
+    destruct (find_row_some _ _ _ _ Hf) as [Hin _].
+    destruct (construct_row_ok _ _ Hwf Hin Hc) as [Hok _].
+    destruct (is_construct_parts _ Hc) as [_ [_ [l [Hb Hlast]]]].
+    unfold construct_ok, body_stmts in Hok. rewrite Hb in Hok. split_andb Hok.
+    match goal with Hx : negb (defines_b _ _) = true |- _ => apply negb_true_iff in Hx; rename Hx into Hdef end.
+    destruct fuel as [|n]; [discriminate|]. cbn [call] in H. rewrite Hf, Hb in H.
+    destruct (bind_params (r_params m) args) as [en0|]; [|discriminate].
+    eapply (exec_returns_self cb_run (call cb_run n tbl) (r_self m) rv l); try eassumption.
+    - intros ->. simpl in Hlast. discriminate.
+    - apply lookup_head.
+  Qed.
+
+  (* THE THREE FORMS, TOGETHER.  Whenever the Group form g.X(args) returns: the function form
+     X(args) and the method form on a fresh statement return too, all three return the SAME
+     statement pointer (the next free cell), with the same callback log; the function and
+     method forms leave identical stores; the Group form's store differs from theirs exactly
+     by g.items having that pointer appended as new last element; and the tree below the new
+     statement is the same in all three stores unless it contains g itself. *)
+  Theorem forms_equivalent tbl X m :
+    rows_wf tbl = true -> find_row tbl s_Statement X = Some m -> is_construct m = true ->
+    forall fuel args g h r h2 lg,
+      call cb_run (Datatypes.S (Datatypes.S fuel)) tbl s_Group X (Some (VGroup g)) args h = Some (r, h2, lg) ->
+      exists h1 gr,
+        r = VStmt (length (st_stmts h)) /\
+        call cb_run (Datatypes.S fuel) tbl [] X None args h = Some (r, h1, lg) /\
+        call cb_run fuel tbl s_Statement X (Some r) args (alloc_stmt h []) = Some (r, h1, lg) /\
+        st_stmts h2 = st_stmts h1 /\ st_dicts h2 = st_dicts h1 /\
+        nth_error (st_groups h1) g = Some gr /\
+        nth_error (st_groups h2) g = Some (mkgrec (g_fields gr) (g_items gr ++ [r])) /\
+        (forall j, j <> g -> nth_error (st_groups h2) j = nth_error (st_groups h1) j) /\
+        (forall n, avoids n h1 g r = true -> snap n h2 r = snap n h1 r).
+  Proof.
+    intros Hwf Hf Hc fuel args g h r h2 lg H.
+    rewrite (group_form_sem cb_run _ _ _ Hwf Hf Hc) in H.
+    destruct (call cb_run (Datatypes.S fuel) tbl [] X None args h) as [[[r1 h1] lg1]|] eqn:E; [|discriminate].
+    destruct (append_group h1 g r1) as [h2'|] eqn:Ea; [|discriminate]. injection H as <- <- <-.
+    pose proof E as E'. rewrite (func_form_sem cb_run _ _ _ Hwf Hf Hc) in E'.
+    pose proof (construct_returns_receiver _ _ _ Hwf Hf Hc _ _ _ _ _ _ _ E') as Hr. subst r1.
+    destruct (append_group_spec _ _ _ _ Ea) as [Hs [Hd [[gr [Hg1 Hg2]] Ho]]].
+    exists h1, gr. repeat split; try assumption.
+    intros n Hn. eapply snap_append_group; eassumption.
+  Qed.
+
+  (* every exported function that takes a callback has a straight-line body in the IR (no
+     loop, branch, go, defer or function literal around the call) *)
+  Lemma cb_rows_straight_line tbl r :
+    rows_wf tbl = true -> In r tbl -> has_cb r = true -> exists l, r_body r = Body l.
+  Proof.
+    intros Hwf Hin Hcb. pose proof (rows_wf_row _ _ Hwf Hin) as Hr. unfold row_ok in Hr. split_andb Hr.
+    rewrite Hcb in *. rewrite orb_true_r in *. unfold has_body in *.
+    destruct (r_body r) as [l| |]; try discriminate. eauto.
+  Qed.
+End Summary.
